@@ -72,6 +72,24 @@ def _h_latex(e: int) -> bool:
     return all([_latex_one(e, sig) for sig in SIGS])
 
 
+def _plain_mant(e):
+    # the spelling written by "e%d" (uncertainty layout): no plus sign, no zero padding
+    return str(e)
+
+
+def _h_unpadded_exponent(e: int) -> bool:
+    """
+    pre: -300 <= e <= 300
+    post: _
+    """
+    m = _plain_mant(e)
+    ok = _latex_pow_10("2.5(12)", m) == "2.5(12)" + chr(92) + "cdot 10^{" + str(e) + "}"
+    ok = ok and _html_pow_10("2.5(12)", m) == "2.5(12)&sdot;10<sup>" + str(e) + "</sup>"
+    u = _unicode_pow_10("2.5(12)", m)
+    ok = ok and u.startswith("2.5(12)·10") and "".join(_SUP_INV.get(ch, "?") for ch in u[len("2.5(12)·10"):]) == str(e)
+    return ok
+
+
 def _h_unicode(e: int) -> bool:
     """
     pre: -300 <= e <= 300
